@@ -179,6 +179,7 @@ class Reject:
     key: dict
     event: Any = None
     verdict: bool = True  # False = reference-clause divergence (never exit 1)
+    shard: int | None = None
 
 
 class Ctx:
@@ -231,8 +232,9 @@ class Ctx:
         self,
         module: str,
         cfg: str,
-        traces: list,
+        traces: list | None,
         *,
+        shards: list | None = None,
         shard_size: int = 20000,
         key_of: Callable[[dict, str], dict] | None = None,
         ntraces: int | None = None,
@@ -249,7 +251,9 @@ class Ctx:
         <<"DIVERGE", clause, index>>) on a mismatch and carries on; the run is accepted when TLC
         finishes without error and the number of distinct states is len(events)+1.
         """
-        shards = [traces[i : i + shard_size] for i in range(0, len(traces), shard_size)] or [[]]
+        if shards is None:
+            shards = [traces[i : i + shard_size] for i in range(0, len(traces), shard_size)] or [[]]
+        nevents = sum(len(s) for s in shards)
         tdir = self.workdir / f"traces_{module}{tag}"
         tdir.mkdir(parents=True, exist_ok=True)
         files = []
@@ -285,12 +289,12 @@ class Ctx:
                     clause, idx = pv[1], pv[2]
                     ev = shards[k][idx - 1] if isinstance(idx, int) and 1 <= idx <= len(shards[k]) else None
                     key = key_of(ev, clause) if (key_of and ev is not None) else {"clause": clause}
-                    rj = Reject(self.pid, clause, key, ev, verdict=(pv[0] == "REJECT"))
+                    rj = Reject(self.pid, clause, key, ev, verdict=(pv[0] == "REJECT"), shard=k)
                     if len(pv) > 3:
                         rj.key.setdefault("detail", pv[3]) if False else None
                     new.append(rj)
         self.rejects.extend(new)
-        self.events += len(traces)
+        self.events += nevents
         self.traces += ntraces if ntraces is not None else len(shards)
         return new
 
